@@ -81,6 +81,12 @@ Definition fault_is (f : fault) (i : N) : bool :=
   match f with FUnpickle j => i =? j | _ => false end.
 
 Section Model.
+(* variants: fx1 = sync_worker_state_cb merges with `x if x is not None else old` (HEAD, commit
+   ab51dc9) instead of `x or old`; fx2 = worker.__sync__ is all-or-nothing (HEAD, commit 8dbc525)
+   instead of storing the per-database part / the global schema before the later loads.
+   fx1 = fx2 = true is the code as pinned; the old variants are kept for Refuted.v. *)
+Variable fx1 : bool.
+Variable fx2 : bool.
 Variable fal : N -> bool.
 Variable cont : N -> N.
 
@@ -156,18 +162,19 @@ Definition sync_db (f : fault) (r : wrk) (db : N) (x : wire) : option (wrk * wdb
     end end end
   end.
 
-(* worker.__sync__ : db part, then GLOBAL_SCHEMA, then INSTANCE_CONFIG; a failure keeps what
-   was already stored and raises FailedStateSync *)
+(* worker.__sync__ : db part, then global schema, then system config are unpickled; any
+   failure raises FailedStateSync.  HEAD (fx2) stores DBS / GLOBAL_SCHEMA / INSTANCE_CONFIG only
+   after all loads succeeded; the old code kept what was already stored. *)
 Definition sync (f : fault) (r : wrk) (db : N) (x : wire) : sres :=
   match sync_db f r db x with
   | None => SFail r
   | Some (r1, d) =>
     match opt_unp (unp_raw f 2) (x_gs x) (w_gs r1) with
-    | None => SFail r1
+    | None => SFail (if fx2 then r else r1)
     | Some cg =>
       let r2 := set_wgs r1 cg in
       match opt_unp (unp_map f 4) (x_sc x) (w_sc r2) with
-      | None => SFail r2
+      | None => SFail (if fx2 then r else r2)
       | Some cs => SOk (set_wsc r2 cs) d
       end
     end
@@ -177,7 +184,10 @@ Definition sync (f : fault) (r : wrk) (db : N) (x : wire) : sres :=
 Definition given (o : option N) : bool :=
   match o with Some x => negb (is_none x) | None => false end.
 Definition pick (o : option N) (old : N) : N :=
-  match o with Some x => if falsy x then old else x | None => old end.
+  match o with
+  | Some x => if (if fx1 then is_none x else falsy x) then old else x
+  | None => old
+  end.
 Definition pick_nn (o : option N) (old : N) : N :=
   match o with Some x => if is_none x then old else x | None => old end.
 
@@ -378,20 +388,17 @@ Fixpoint trace (s : sys) (h : list op) : list (out * sys) :=
 (* hypotheses of the theorems, as executable predicates on histories   *)
 
 Definition truthy (x : N) : bool := negb (falsy x).
+Definition nn (x : N) : bool := negb (is_none x).
 
-(* faults after which server belief and worker state still agree *)
+(* HEAD: every fault placement except an unusable (status 2) reply to a compile* request, and
+   every value except None, keeps server belief and worker state in agreement *)
 Definition clean_fault (f : fault) : bool :=
-  match f with
-  | FNone | FReqLost | FCompiler => true
-  | FUnpickle i => (i =? 0) || (i =? 1) || (i =? 3) || (i =? 5)
-  | FReplyLost => false
-  end.
+  match f with FReplyLost => false | _ => true end.
 
 Definition clean_op (o : op) : bool :=
   match o with
-  | OCompile w m db us gs rc dc sc f =>
-    truthy us && truthy gs && truthy rc && truthy dc && truthy sc && clean_fault f
-  | OTx avail db us ps f => negb (is_none ps)
+  | OCompile w m db us gs rc dc sc f => nn us && nn gs && nn rc && nn dc && nn sc && clean_fault f
+  | OTx avail db us ps f => nn ps
   | ORestart w dbs gs sc => true
   end.
 
@@ -405,8 +412,8 @@ Definition sys0 : sys := mkSys [] 1.
    content 50), identities 2k and 2k+1 are two objects of equal content k *)
 Definition fal0 (x : N) : bool := 100 <=? x.
 Definition cont0 (x : N) : N := if x =? 0 then 0 else if 100 <=? x then 50 else x / 2.
-Definition clean0 (h : list op) : bool := clean_hist fal0 h.
-Definition trace0 (h : list op) : list (out * sys) := trace fal0 cont0 sys0 h.
+Definition clean0 (h : list op) : bool := clean_hist h.
+Definition trace0 (h : list op) : list (out * sys) := trace true true fal0 cont0 sys0 h.
 
 (* flat numeric rendering of a trace: compared between vm_compute and the extracted binary *)
 Definition fl_opt (o : option N) : list N := match o with None => [0] | Some x => [1; x] end.
